@@ -18,12 +18,17 @@ from vlib.ctx import Machinery
 
 DT = torch.float64
 NF, NB, ND = 7, 5, 100
+LO, HI = -0.375, 0.875          # the finite limits of the configuration table: exactly representable in single precision too
+
+
+QC_BASE = dict(NFwd=NF, NBck=NB, NDefault=ND, BckForwarded=True, KindRemembered=True, AllowUnused=True, EmptyParamsOk=True, LimitsConverted=True)
+QC_INVS = ["NeverRaises", "BackwardRule", "LimitsGetGradIffRequired", "RuleInIntegrandPrecision"]
 
 
 def enumerate_cfgs(ctx, label, **over):
-    c = dict(NFwd=NF, NBck=NB, NDefault=ND, BckForwarded=True, KindRemembered=True, AllowUnused=True)
+    c = dict(QC_BASE)
     c.update(over)
-    t, cf = tlcmod.gen_mc(ctx.work, "QuadCfg", "MC_QC_" + label, c, invariants=["NeverRaises", "BackwardRule", "LimitsGetGradIffRequired"])
+    t, cf = tlcmod.gen_mc(ctx.work, "QuadCfg", "MC_QC_" + label, c, invariants=QC_INVS)
     dot = os.path.join(ctx.work, "qc.dot")
     ctx.model_check(t, cf, workers=4, dump_dot=dot, label="quad configuration table", timeout=300)
     nodes, inits, edges = tlcmod.parse_dot(dot)
@@ -35,7 +40,12 @@ def make_limit(kind, inf, sign, val):
     v = (math.inf * sign) if inf else val
     if kind == "number":
         return v
-    return torch.tensor(v, dtype=DT, requires_grad=(kind == "tensor_grad"))
+    return torch.tensor(v, dtype=torch.float32 if kind == "tensor32_grad" else DT, requires_grad=kind.endswith("_grad"))
+
+
+def make_param(kind, val):
+    """the integrand's coefficient as QuadCfg.tla's ParamKinds"""
+    return float(val) if kind == "number" else torch.tensor(val, dtype=DT, requires_grad=(kind == "tensor_grad"))
 
 
 def Counting():
@@ -45,15 +55,16 @@ def Counting():
     def f(x, a, *rest):
         xs.append(float(x))
         xx = torch.as_tensor(x, dtype=DT)
+        a = torch.as_tensor(a, dtype=DT)
         return torch.exp(-a * xx ** 2) * torch.stack([a, a ** 2])
     f.xs = xs
     return f
 
 
 def run_cfg(st, count):
-    xl = make_limit(st["xlKind"], st["xlInf"], -1, -0.4)
-    xu = make_limit(st["xuKind"], st["xuInf"], +1, 0.9)
-    a = torch.tensor(0.8, dtype=DT, requires_grad=True)
+    xl = make_limit(st["xlKind"], st["xlInf"], -1, LO)
+    xu = make_limit(st["xuKind"], st["xuInf"], +1, HI)
+    a = make_param(st["aKind"], 0.8)
     junk = torch.tensor(0.1, dtype=DT, requires_grad=True)
     params = (a, junk) if st["hasUnused"] else (a,)
     kw = {}
@@ -89,6 +100,8 @@ def extract_rule(n, xl, xu, **kw):
 def run(ctx):
     thorough = ctx.tier == "thorough"
     states = enumerate_cfgs(ctx, "fwd")
+    t_, cf_ = tlcmod.gen_mc(ctx.work, "QuadCfg", "MC_QC_dev_LimitsConverted", dict(QC_BASE, LimitsConverted=False), invariants=QC_INVS)
+    ctx.expect_violation(t_, cf_, inv="RuleInIntegrandPrecision", label="deviation LimitsConverted", workers=4, timeout=300)
     n = 0
     nexec = [0]
     nhist = 0
@@ -96,7 +109,7 @@ def run(ctx):
         warnings.simplefilter("ignore")
         # 1. configuration table, forward part
         for st in states:
-            if st["hasUnused"] or st["bckGiven"]:
+            if st["hasUnused"] or st["bckGiven"] or st["aKind"] != "tensor_grad":
                 continue            # forward behaviour does not depend on them (covered by C13)
             n += 1
             nexec[0] += 1
@@ -116,7 +129,7 @@ def run(ctx):
             else:
                 nodes = cnt.xs[1:]
                 if pred["transform"] == "none":
-                    lo, hi = -0.4, 0.9
+                    lo, hi = LO, HI
                     if not all(lo <= x <= hi for x in nodes):
                         why = "nodes outside the interval"
                     ref = None
@@ -125,12 +138,26 @@ def run(ctx):
                     pass
                 aa = 0.8
                 Fx = lambda x: 0.5 * math.sqrt(math.pi / aa) * math.erf(math.sqrt(aa) * x)
-                lo = -math.inf if st["xlInf"] else -0.4
-                hi = math.inf if st["xuInf"] else 0.9
+                lo = -math.inf if st["xlInf"] else LO
+                hi = math.inf if st["xuInf"] else HI
                 exact = (Fx(hi) if hi != math.inf else 0.5 * math.sqrt(math.pi / aa)) - (Fx(lo) if lo != -math.inf else -0.5 * math.sqrt(math.pi / aa))
                 nn_ = NF if st["nGiven"] else ND
                 tol = 1e-10 if nn_ == ND else (5e-3 if pred["transform"] == "tan" else 1e-6)
                 val = out.detach()
+                # the rule is built in the integrand's precision (QuadCfg.RuleInIntegrandPrecision): its nodes are the
+                # double-precision Gauss nodes whatever the precision of the limits
+                import numpy as np
+                tg_, _ = np.polynomial.legendre.leggauss(nn_)
+                if pred["transform"] == "none":
+                    expn = tg_ * 0.5 * (hi - lo) + 0.5 * (hi + lo)
+                else:
+                    tl_, tu_ = math.atan(lo), math.atan(hi)
+                    expn = np.tan(tg_ * 0.5 * (tu_ - tl_) + 0.5 * (tu_ + tl_))
+                dev = float(np.max(np.abs(np.sort(np.array(nodes)) - np.sort(expn)) / np.maximum(1.0, np.abs(np.sort(expn)))))
+                if why is None and out.dtype != DT:
+                    why = "result dtype %s for a double-precision integrand" % out.dtype
+                if why is None and dev > 1e-12:
+                    why = "the nodes deviate from the double-precision Gauss nodes by %.2e (relative): the rule was not built in the integrand's precision" % dev
                 if why is None and (abs(float(val[0]) - aa * exact) > tol * 10 or abs(float(val[1]) - aa ** 2 * exact) > tol * 10):
                     why = "value %s, exact %s (n = %d, tolerance %.0e)" % (val.tolist(), [aa * exact, aa ** 2 * exact], nn_, tol * 10)
             if why:
@@ -141,16 +168,29 @@ def run(ctx):
         intervals = [(-1.0, 1.0), (0.0, 2.5), (3.0, -1.0), (-1e-3, 2e-3), (10.0, 250.0), (-7.0, -6.5)]
         for nq in ns:
             for (lo, hi) in intervals:
-                for as_tensor in (False, True):
+                # representations of the limits: python numbers, 0-dimensional and one-element tensors of the integrand's or of
+                # single precision (only where the value is exactly representable), one limit a tensor and the other a number
+                f32ok = all(float(torch.tensor(v_, dtype=torch.float32)) == v_ for v_ in (lo, hi))
+                reps = [False, True, "t64x1"] + (["t32", "t32-number"] if f32ok else []) + (["int"] if float(lo).is_integer() and float(hi).is_integer() else [])
+                for as_tensor in reps:
                     n += 1
                     ctx.case(key=("rule", nq, lo, hi, as_tensor))
-                    xl = torch.tensor(lo, dtype=DT) if as_tensor else lo
-                    xu = torch.tensor(hi, dtype=DT) if as_tensor else hi
+                    if as_tensor == "t64x1":
+                        xl, xu = torch.tensor([lo], dtype=DT), torch.tensor([hi], dtype=DT)
+                    elif as_tensor == "t32":
+                        xl, xu = torch.tensor(lo, dtype=torch.float32), torch.tensor([hi], dtype=torch.float32)
+                    elif as_tensor == "t32-number":
+                        xl, xu = torch.tensor(lo, dtype=torch.float32), hi
+                    elif as_tensor == "int":
+                        xl, xu = int(lo), int(hi)
+                    else:
+                        xl = torch.tensor(lo, dtype=DT) if as_tensor else lo
+                        xu = torch.tensor(hi, dtype=DT) if as_tensor else hi
                     try:
                         # (every other case also names OTHER settings for the backward pass: they must not reach the forward rule)
-                        calls, out = extract_rule(nq, xl, xu, **({"bck_options": {"n": nq + 3}} if (nq + int(as_tensor)) % 2 == 0 else {}))
+                        calls, out = extract_rule(nq, xl, xu, **({"bck_options": {"n": nq + 3}} if (nq + int(as_tensor is not False)) % 2 == 0 else {}))
                     except Exception as e:
-                        ctx.violation("quad/rule/raise", "quad(n=%d) on [%s, %s] (%s limits) raised %s: %s" % (nq, lo, hi, "tensor" if as_tensor else "number", type(e).__name__, str(e)[:100]),
+                        ctx.violation("quad/rule/raise", "quad(n=%d) on [%s, %s] (%s limits) raised %s: %s" % (nq, lo, hi, {False: "number", True: "tensor"}.get(as_tensor, as_tensor), type(e).__name__, str(e)[:100]),
                                       {"n": nq})
                         continue
                     w = out[1:].detach()
@@ -174,7 +214,8 @@ def run(ctx):
                                     why = "sum_i w_i P_%d(x_i) = %.3e, an exact %d-point Gauss rule gives %s" % (k, m, nq, 2 if k == 0 else 0)
                                     break
                     if why:
-                        ctx.violation("quad/rule/n=%d" % nq, "quad(n=%d) on [%s, %s]: %s" % (nq, lo, hi, why), {"n": nq, "interval": [lo, hi]})
+                        ctx.violation("quad/rule/n=%d" % nq, "quad(n=%d) on [%s, %s] (limits given as %s): %s" % (nq, lo, hi, {False: "numbers", True: "tensors"}.get(as_tensor, as_tensor), why),
+                                      {"n": nq, "interval": [lo, hi], "limits": str(as_tensor)})
         # 3. algebraic laws on polynomials of degree <= 2n-1, tuple outputs, infinite limits
         for nq in (2, 3, 5, 8):
             deg = 2 * nq - 1
